@@ -1,13 +1,15 @@
-/- C15 — the timeout ring: a lookup of age `a` (ticks since it was issued) has its id in slot
-r0, r4, r3, r2, r1 for a = 0..4, `value_number_` is the ring population, hence no lookup is
-outstanding for five ticks or more — including lookups issued from inside callbacks, in
-particular from timeout callbacks while the tick is walking the slot it swapped out.
+/- C15 — the timeout ring.  A lookup of age `a` (ticks since it was issued) has its token
+(id, serial) in slot r0, r4, r3, r2, r1 for a = 0..4; `value_number_` is the ring population; a
+token whose lookup is still outstanding sits in the slot of that lookup's age.  Hence: no lookup
+is outstanding for five ticks, and a timeout callback comes exactly at the fifth tick — also for
+lookups issued from inside callbacks, in particular from timeout callbacks while the tick walks
+the slot it swapped out, and also when ids are reused (stale tokens do not match).
 Core Lean only. -/
 import TboxModel.C15.Account
 namespace Tbox.C15
 
-/-- the slot holding the ids of the lookups of age `a` -/
-def slot (st : St) : Nat → List Nat
+/-- the slot holding the tokens of the lookups of age `a` -/
+def slot (st : St) : Nat → List Token
   | 0 => st.r0
   | 1 => st.r4
   | 2 => st.r3
@@ -18,53 +20,76 @@ def ringLen (st : St) : Nat :=
   st.r0.length + st.r1.length + st.r2.length + st.r3.length + st.r4.length
 
 def Timed (st : St) : Prop :=
-  (∀ e ∈ st.reqs, e.2.born ≤ st.now ∧ st.now - e.2.born < 5 ∧ e.1 ∈ slot st (st.now - e.2.born)) ∧
-  st.valueNumber = ringLen st
+  (∀ e ∈ st.reqs, e.2.born ≤ st.now ∧ st.now - e.2.born < 5 ∧ (e.1, e.2.serial) ∈ slot st (st.now - e.2.born)) ∧
+  st.valueNumber = ringLen st ∧
+  (∀ a, a < 5 → ∀ t ∈ slot st a, ∀ e ∈ st.reqs, e.2.serial = t.2 → st.now - e.2.born = a) ∧
+  (∀ a, a < 5 → ∀ t ∈ slot st a, t.2 < st.nextSerial) ∧
+  (∀ e ∈ st.reqs, e.2.serial < st.nextSerial)
 
 /-- between ticks: the clock stands, slots r1..r4 are untouched, r0 and `value_number_` grow
-together, and every entry is an old one (same key, same birth) or was born now with its id among
-the ids added -/
+together by tokens of fresh serials, and every entry is an old one (same key, birth, serial) or
+was born now with its token among the added ones -/
 def Grow (st st' : St) : Prop :=
   st'.now = st.now ∧ st'.r1 = st.r1 ∧ st'.r2 = st.r2 ∧ st'.r3 = st.r3 ∧ st'.r4 = st.r4 ∧
-  ∃ extra, st'.r0 = st.r0 ++ extra ∧ st'.valueNumber = st.valueNumber + extra.length ∧
-    ∀ e ∈ st'.reqs, (∃ e0 ∈ st.reqs, e0.1 = e.1 ∧ e0.2.born = e.2.born) ∨ (e.2.born = st.now ∧ e.1 ∈ extra)
+  st.nextSerial ≤ st'.nextSerial ∧
+  ∃ extra : List Token, st'.r0 = extra ++ st.r0 ∧ st'.valueNumber = st.valueNumber + extra.length ∧
+    (∀ t ∈ extra, st.nextSerial ≤ t.2 ∧ t.2 < st'.nextSerial) ∧
+    ∀ e ∈ st'.reqs,
+      (∃ e0 ∈ st.reqs, e0.1 = e.1 ∧ e0.2.born = e.2.born ∧ e0.2.serial = e.2.serial) ∨
+      (e.2.born = st.now ∧ (e.1, e.2.serial) ∈ extra)
 
 theorem Grow.refl (st : St) : Grow st st :=
-  ⟨rfl, rfl, rfl, rfl, rfl, [], by simp, by simp, fun e he => Or.inl ⟨e, he, rfl, rfl⟩⟩
+  ⟨rfl, rfl, rfl, rfl, rfl, Nat.le_refl _, [], by simp, by simp, by simp,
+   fun e he => Or.inl ⟨e, he, rfl, rfl, rfl⟩⟩
 
 theorem Grow.trans {a b c : St} (h1 : Grow a b) (h2 : Grow b c) : Grow a c := by
-  obtain ⟨n1, a1, a2, a3, a4, x1, hx1, hv1, he1⟩ := h1
-  obtain ⟨n2, b1, b2, b3, b4, x2, hx2, hv2, he2⟩ := h2
-  refine ⟨n2.trans n1, b1.trans a1, b2.trans a2, b3.trans a3, b4.trans a4, x1 ++ x2, ?_, ?_, ?_⟩
+  obtain ⟨n1, a1, a2, a3, a4, s1, x1, hx1, hv1, ht1, he1⟩ := h1
+  obtain ⟨n2, b1, b2, b3, b4, s2, x2, hx2, hv2, ht2, he2⟩ := h2
+  refine ⟨n2.trans n1, b1.trans a1, b2.trans a2, b3.trans a3, b4.trans a4, Nat.le_trans s1 s2, x2 ++ x1, ?_, ?_, ?_, ?_⟩
   · rw [hx2, hx1, List.append_assoc]
   · rw [hv2, hv1, List.length_append]; omega
+  · intro t ht
+    rcases List.mem_append.mp ht with h | h
+    · have := ht2 t h; omega
+    · have := ht1 t h; omega
   · intro e he
-    rcases he2 e he with ⟨e0, he0, hk, hb⟩ | ⟨hb, hk⟩
-    · rcases he1 e0 he0 with ⟨e00, he00, hk0, hb0⟩ | ⟨hb0, hk0⟩
-      · exact Or.inl ⟨e00, he00, hk0.trans hk, hb0.trans hb⟩
-      · exact Or.inr ⟨by rw [← hb, hb0], List.mem_append.mpr (Or.inl (hk ▸ hk0))⟩
-    · exact Or.inr ⟨by rw [hb, n1], List.mem_append.mpr (Or.inr hk)⟩
+    rcases he2 e he with ⟨e0, he0, hk, hb, hs⟩ | ⟨hb, hk⟩
+    · rcases he1 e0 he0 with ⟨e00, he00, hk0, hb0, hs0⟩ | ⟨hb0, hk0⟩
+      · exact Or.inl ⟨e00, he00, hk0.trans hk, hb0.trans hb, hs0.trans hs⟩
+      · exact Or.inr ⟨by rw [← hb, hb0], List.mem_append.mpr (Or.inr (by rw [← hk, ← hs]; exact hk0))⟩
+    · exact Or.inr ⟨by rw [hb, n1], List.mem_append.mpr (Or.inl hk)⟩
 
 theorem grow_of_sub {st st' : St} (hn : st'.now = st.now) (h0 : st'.r0 = st.r0) (h1 : st'.r1 = st.r1)
     (h2 : st'.r2 = st.r2) (h3 : st'.r3 = st.r3) (h4 : st'.r4 = st.r4) (hv : st'.valueNumber = st.valueNumber)
-    (hr : ∀ e ∈ st'.reqs, ∃ e0 ∈ st.reqs, e0.1 = e.1 ∧ e0.2.born = e.2.born) : Grow st st' :=
-  ⟨hn, h1, h2, h3, h4, [], by simp [h0], by simp [hv], fun e he => Or.inl (hr e he)⟩
+    (hs : st.nextSerial ≤ st'.nextSerial)
+    (hr : ∀ e ∈ st'.reqs, ∃ e0 ∈ st.reqs, e0.1 = e.1 ∧ e0.2.born = e.2.born ∧ e0.2.serial = e.2.serial) :
+    Grow st st' :=
+  ⟨hn, h1, h2, h3, h4, hs, [], by simp [h0], by simp [hv], by simp, fun e he => Or.inl (hr e he)⟩
+
+theorem refuse_grow (st : St) : Grow st (refuse st).1 :=
+  grow_of_sub rfl rfl rfl rfl rfl rfl rfl (Nat.le_succ _) (fun e he => ⟨e, he, rfl, rfl, rfl⟩)
 
 theorem lookup_grow (st : St) (sid : Nat) : Grow st (lookup st sid).1 := by
   unfold lookup
   split
-  · exact grow_of_sub rfl rfl rfl rfl rfl rfl rfl (fun e he => ⟨e, he, rfl, rfl⟩)
-  · refine ⟨rfl, rfl, rfl, rfl, rfl, [(st.alloc + 1) % 65536], rfl, rfl, ?_⟩
-    intro e he
-    rcases List.mem_cons.mp he with rfl | he
-    · exact Or.inr ⟨rfl, by simp⟩
-    · exact Or.inl ⟨e, (mem_erase he).1, rfl, rfl⟩
+  · exact refuse_grow st
+  · split
+    · exact refuse_grow st
+    · refine ⟨rfl, rfl, rfl, rfl, rfl, Nat.le_succ _, [(probe st.reqs 65536 st.alloc, st.nextSerial)], rfl, rfl, ?_, ?_⟩
+      · intro t ht
+        simp only [List.mem_singleton] at ht
+        subst ht
+        exact ⟨Nat.le_refl _, Nat.lt_succ_self _⟩
+      · intro e he
+        rcases List.mem_cons.mp he with rfl | he
+        · exact Or.inr ⟨rfl, by simp⟩
+        · exact Or.inl ⟨e, (mem_erase he).1, rfl, rfl, rfl⟩
 
 theorem cancel_grow (st : St) (id : Nat) : Grow st (cancel st id).1 := by
   unfold cancel
   split
   · exact Grow.refl st
-  · exact grow_of_sub rfl rfl rfl rfl rfl rfl rfl (fun e he => ⟨e, (mem_erase he).1, rfl, rfl⟩)
+  · exact grow_of_sub rfl rfl rfl rfl rfl rfl rfl (Nat.le_refl _) (fun e he => ⟨e, (mem_erase he).1, rfl, rfl, rfl⟩)
 
 theorem runScript_grow (self : Nat) : ∀ (acts : List Act) (st : St), Grow st (runScript self st acts).1 := by
   intro acts
@@ -77,23 +102,27 @@ theorem runScript_grow (self : Nat) : ∀ (acts : List Act) (st : St), Grow st (
     | cancel id => simpa [runScript] using (cancel_grow st id).trans (ih _)
     | cancelSelf => simpa [runScript] using (cancel_grow st self).trans (ih _)
 
+/-- after `finish st id …` every entry of key `id` is a lookup issued by the callback itself -/
 theorem finish_grow (st : St) (id : Nat) (r : Req) (res : Result) :
-    Grow st (finish st id r res).1 ∧ ∀ e ∈ (finish st id r res).1.reqs, e.1 = id → e.2.born = st.now := by
+    Grow st (finish st id r res).1 ∧
+    ∀ e ∈ (finish st id r res).1.reqs, e.1 = id → st.nextSerial ≤ e.2.serial := by
   generalize hst0 : ({ st with reqs := erase st.reqs id, called := st.called ++ [r.serial] } : St) = st0
   have hfin : (finish st id r res).1 = (runScript id st0 r.script).1 := by rw [← hst0]; rfl
   rw [hfin]
   have g0 : Grow st st0 := by
     rw [← hst0]
-    exact grow_of_sub rfl rfl rfl rfl rfl rfl rfl (fun e he => ⟨e, (mem_erase he).1, rfl, rfl⟩)
+    exact grow_of_sub rfl rfl rfl rfl rfl rfl rfl (Nat.le_refl _) (fun e he => ⟨e, (mem_erase he).1, rfl, rfl, rfl⟩)
   have gs := runScript_grow id r.script st0
   refine ⟨g0.trans gs, ?_⟩
   intro e he hk
-  obtain ⟨_, _, _, _, _, extra, _, _, hold⟩ := gs
-  rcases hold e he with ⟨e0, he0, hk0, _⟩ | ⟨hb, _⟩
+  obtain ⟨_, _, _, _, _, _, extra, _, _, hext, hold⟩ := gs
+  rcases hold e he with ⟨e0, he0, hk0, _, _⟩ | ⟨_, hmem⟩
   · exfalso
     rw [← hst0] at he0
     exact (mem_erase he0).2 (hk0.trans hk)
-  · rw [hb, ← hst0]
+  · have := (hext _ hmem).1
+    rw [← hst0] at this
+    exact this
 
 theorem applyReply_grow (st : St) (rep : Reply) : Grow st (applyReply st rep).1 := by
   cases rep with
@@ -112,11 +141,11 @@ theorem applyReply_grow (st : St) (rep : Reply) : Grow st (applyReply st rep).1 
       · split
         · exact (finish_grow _ _ _ _).1
         · split
-          · refine grow_of_sub rfl rfl rfl rfl rfl rfl rfl ?_
+          · refine grow_of_sub rfl rfl rfl rfl rfl rfl rfl (Nat.le_refl _) ?_
             intro e he
             obtain ⟨e0, he0, rfl⟩ := List.mem_map.mp he
             refine ⟨e0, he0, ?_⟩
-            split <;> exact ⟨rfl, rfl⟩
+            split <;> exact ⟨rfl, rfl, rfl⟩
           · exact (finish_grow _ _ _ _).1
 
 theorem onRecv_grow (st : St) (d : List Byte) : Grow st (onRecv st d).1 := by
@@ -127,140 +156,411 @@ theorem onRecv_grow (st : St) (d : List Byte) : Grow st (onRecv st d).1 := by
     · exact applyReply_grow _ _
     · exact Grow.refl st
 
+/-- a token of `st'` is a token of `st` in the same slot, or a fresh one in slot 0 -/
+theorem slot_grow {st st' : St} {extra : List Token} (g1 : st'.r1 = st.r1) (g2 : st'.r2 = st.r2)
+    (g3 : st'.r3 = st.r3) (g4 : st'.r4 = st.r4) (hx : st'.r0 = extra ++ st.r0) {a : Nat} (ha : a < 5)
+    {t : Token} (ht : t ∈ slot st' a) : t ∈ slot st a ∨ (a = 0 ∧ t ∈ extra) := by
+  have : a = 0 ∨ a = 1 ∨ a = 2 ∨ a = 3 ∨ a = 4 := by omega
+  rcases this with rfl | rfl | rfl | rfl | rfl
+  · have ht' : t ∈ st'.r0 := ht
+    rw [hx] at ht'
+    rcases List.mem_append.mp ht' with h | h
+    · exact Or.inr ⟨rfl, h⟩
+    · exact Or.inl h
+  · left; show t ∈ st.r4; rw [← g4]; exact ht
+  · left; show t ∈ st.r3; rw [← g3]; exact ht
+  · left; show t ∈ st.r2; rw [← g2]; exact ht
+  · left; show t ∈ st.r1; rw [← g1]; exact ht
+
+theorem slot_mono {st st' : St} {extra : List Token} (g1 : st'.r1 = st.r1) (g2 : st'.r2 = st.r2)
+    (g3 : st'.r3 = st.r3) (g4 : st'.r4 = st.r4) (hx : st'.r0 = extra ++ st.r0) {a : Nat} (ha : a < 5)
+    {t : Token} (ht : t ∈ slot st a) : t ∈ slot st' a := by
+  have : a = 0 ∨ a = 1 ∨ a = 2 ∨ a = 3 ∨ a = 4 := by omega
+  rcases this with rfl | rfl | rfl | rfl | rfl
+  · show t ∈ st'.r0; rw [hx]; exact List.mem_append.mpr (Or.inr ht)
+  · show t ∈ st'.r4; rw [g4]; exact ht
+  · show t ∈ st'.r3; rw [g3]; exact ht
+  · show t ∈ st'.r2; rw [g2]; exact ht
+  · show t ∈ st'.r1; rw [g1]; exact ht
+
 theorem timed_of_grow {st st' : St} (ht : Timed st) (hg : Grow st st') : Timed st' := by
-  obtain ⟨hn, g1, g2, g3, g4, extra, hx, hv, he⟩ := hg
-  refine ⟨?_, ?_⟩
+  obtain ⟨hn, g1, g2, g3, g4, hs, extra, hx, hv, hext, he⟩ := hg
+  obtain ⟨t1, t2, t3, t4, t5⟩ := ht
+  refine ⟨?_, ?_, ?_, ?_, ?_⟩
   · intro e hmem
-    rcases he e hmem with ⟨e0, he0, hk, hb⟩ | ⟨hb, hk⟩
-    · obtain ⟨t1, t2, t3⟩ := ht.1 e0 he0
-      rw [hn, ← hb, ← hk]
-      refine ⟨t1, t2, ?_⟩
-      generalize st.now - e0.2.born = a at t2 t3
-      have : a = 0 ∨ a = 1 ∨ a = 2 ∨ a = 3 ∨ a = 4 := by omega
-      rcases this with rfl | rfl | rfl | rfl | rfl
-      · show e0.1 ∈ st'.r0
-        rw [hx]; exact List.mem_append.mpr (Or.inl t3)
-      · show e0.1 ∈ st'.r4
-        rw [g4]; exact t3
-      · show e0.1 ∈ st'.r3
-        rw [g3]; exact t3
-      · show e0.1 ∈ st'.r2
-        rw [g2]; exact t3
-      · show e0.1 ∈ st'.r1
-        rw [g1]; exact t3
+    rcases he e hmem with ⟨e0, he0, hk, hb, hse⟩ | ⟨hb, hk⟩
+    · obtain ⟨u1, u2, u3⟩ := t1 e0 he0
+      rw [hn, ← hb, ← hk, ← hse]
+      exact ⟨u1, u2, slot_mono g1 g2 g3 g4 hx u2 u3⟩
     · rw [hn, hb]
       refine ⟨Nat.le_refl _, by omega, ?_⟩
       rw [Nat.sub_self]
-      show e.1 ∈ st'.r0
-      rw [hx]; exact List.mem_append.mpr (Or.inr hk)
-  · have := ht.2
-    unfold ringLen at *
+      show (e.1, e.2.serial) ∈ st'.r0
+      rw [hx]; exact List.mem_append.mpr (Or.inl hk)
+  · unfold ringLen at *
     rw [hv, hx, g1, g2, g3, g4, List.length_append]; omega
+  · intro a ha t htok e hmem hser
+    rw [hn]
+    rcases slot_grow g1 g2 g3 g4 hx ha htok with hold | ⟨ha0, hnew⟩
+    · rcases he e hmem with ⟨e0, he0, _, hb, hse⟩ | ⟨_, hk⟩
+      · rw [← hb]; exact t3 a ha t hold e0 he0 (hse.trans hser)
+      · exfalso
+        have h1 := (hext _ hk).1
+        have h2 := t4 a ha t hold
+        have h3 : e.2.serial = t.2 := hser
+        omega
+    · rcases he e hmem with ⟨e0, he0, _, _, hse⟩ | ⟨hb, _⟩
+      · exfalso
+        have h1 := t5 e0 he0
+        have h2 := (hext _ hnew).1
+        have h3 : e.2.serial = t.2 := hser
+        omega
+      · rw [hb, ha0]; exact Nat.sub_self _
+  · intro a ha t htok
+    rcases slot_grow g1 g2 g3 g4 hx ha htok with hold | ⟨_, hnew⟩
+    · exact Nat.lt_of_lt_of_le (t4 a ha t hold) hs
+    · exact (hext _ hnew).2
+  · intro e hmem
+    rcases he e hmem with ⟨e0, he0, _, _, hse⟩ | ⟨_, hk⟩
+    · rw [← hse]; exact Nat.lt_of_lt_of_le (t5 e0 he0) hs
+    · exact (hext _ hk).2
 
-/-- the walk over the swapped-out slot: ids already handled have no OLD entry left -/
-theorem foldl_onTimeout_grow {st1 : St} (items : List Nat) :
-    ∀ (done : List Nat) (acc : St × List Event), Grow st1 acc.1 →
-      (∀ id ∈ done, ∀ e ∈ acc.1.reqs, e.1 = id → e.2.born = st1.now) →
+/-- a callback that is not a timeout comes while the lookup is younger than five ticks -/
+theorem finish_age (st : St) (id : Nat) (r : Req) (res : Result) :
+    ∀ e ∈ (finish st id r res).2, e.result = res ∧ e.age = st.now - r.born := by
+  intro e he
+  have : (finish st id r res).2 = [⟨r.serial, res, (runScript id _ r.script).2, st.now - r.born⟩] := rfl
+  rw [this] at he
+  simp only [List.mem_singleton] at he
+  subst he
+  exact ⟨rfl, rfl⟩
+
+theorem applyReply_age {st : St} (rep : Reply) (ht : Timed st) :
+    ∀ e ∈ (applyReply st rep).2, e.result.status ≠ .timeout ∧ e.age < 5 := by
+  have key : ∀ (id : Nat) (r : Req) (res : Result), find st.reqs id = some r → res.status ≠ .timeout →
+      ∀ e ∈ (finish st id r res).2, e.result.status ≠ .timeout ∧ e.age < 5 := by
+    intro id r res hf hres e he
+    obtain ⟨h1, h2⟩ := finish_age st id r res e he
+    rw [h1, h2]
+    exact ⟨hres, (ht.1 _ (find_mem hf)).2.1⟩
+  cases rep with
+  | ignore => intro e he; simp [applyReply] at he
+  | answer id a c =>
+    simp only [applyReply]
+    cases hf : find st.reqs id with
+    | none => intro e he; simp at he
+    | some r => exact key id r _ hf (by simp)
+  | rcode id rc =>
+    simp only [applyReply]
+    cases hf : find st.reqs id with
+    | none => intro e he; simp at he
+    | some r =>
+      simp only
+      split
+      · exact key id r _ hf (by simp)
+      · split
+        · exact key id r _ hf (by simp)
+        · split
+          · intro e he; simp at he
+          · exact key id r _ hf (by simp)
+
+theorem onRecv_age {st : St} (d : List Byte) (ht : Timed st) :
+    ∀ e ∈ (onRecv st d).2, e.result.status ≠ .timeout ∧ e.age < 5 := by
+  unfold onRecv
+  split
+  · intro e he; simp at he
+  · split
+    · exact applyReply_age _ ht
+    · intro e he; simp at he
+
+theorem onTimeout_pres (acc : St × List Event) (x : Token) : Pres acc.1 (onTimeout acc x).1 := by
+  unfold onTimeout
+  cases hf : find acc.1.reqs x.1 with
+  | none => exact Pres.refl _
+  | some r =>
+    dsimp only
+    split
+    · exact finish_pres acc.1 x.1 r { status := .timeout } hf
+    · exact Pres.refl _
+
+/-- the walk over the swapped-out slot.  `st1` = state at the start of the walk.  Every token of
+the slot belongs to a lookup issued exactly five ticks before `st1.now` (if still outstanding)
+and carries an old serial.  Afterwards: no entry matches a walked token, and every callback run
+was a timeout at age 5. -/
+theorem foldl_onTimeout_grow {st1 : St} (items : List Token) :
+    ∀ (done : List Token) (acc : St × List Event),
+      (∀ t ∈ items, t.2 < st1.nextSerial ∧ ∀ e ∈ st1.reqs, e.2.serial = t.2 → e.2.born + 5 = st1.now) →
+      Grow st1 acc.1 → KU acc.1 → Acc acc.1 →
+      (∀ t ∈ done, t.2 < st1.nextSerial ∧ ∀ e ∈ acc.1.reqs, ¬ (e.1 = t.1 ∧ e.2.serial = t.2)) →
+      (∀ e ∈ acc.2, e.result.status = .timeout ∧ e.age = 5) →
       Grow st1 (items.foldl onTimeout acc).1 ∧
-      ∀ id ∈ done ++ items, ∀ e ∈ (items.foldl onTimeout acc).1.reqs, e.1 = id → e.2.born = st1.now := by
+      (∀ t ∈ done ++ items, ∀ e ∈ (items.foldl onTimeout acc).1.reqs, ¬ (e.1 = t.1 ∧ e.2.serial = t.2)) ∧
+      (∀ e ∈ (items.foldl onTimeout acc).2, e.result.status = .timeout ∧ e.age = 5) := by
   induction items with
-  | nil => intro done acc hg hd; exact ⟨hg, by simpa using hd⟩
+  | nil =>
+    intro done acc _ hg _ _ hd hev
+    exact ⟨hg, by simpa using fun t ht => (hd t ht).2, hev⟩
   | cons x l ih =>
-    intro done acc hg hd
+    intro done acc hit hg hk ha hd hev
+    have hx := hit x List.mem_cons_self
+    have hpres := onTimeout_pres acc x hk ha
     have key : Grow st1 (onTimeout acc x).1 ∧
-        ∀ id ∈ done ++ [x], ∀ e ∈ (onTimeout acc x).1.reqs, e.1 = id → e.2.born = st1.now := by
+        (∀ t ∈ done ++ [x], t.2 < st1.nextSerial ∧ ∀ e ∈ (onTimeout acc x).1.reqs, ¬ (e.1 = t.1 ∧ e.2.serial = t.2)) ∧
+        (∀ e ∈ (onTimeout acc x).2, e.result.status = .timeout ∧ e.age = 5) := by
       unfold onTimeout
-      cases hf : find acc.1.reqs x with
+      cases hf : find acc.1.reqs x.1 with
       | none =>
-        refine ⟨hg, ?_⟩
-        intro id hid e he hk
-        rcases List.mem_append.mp hid with h | h
-        · exact hd id h e he hk
+        refine ⟨hg, ?_, hev⟩
+        intro t ht
+        rcases List.mem_append.mp ht with h | h
+        · exact hd t h
         · simp only [List.mem_singleton] at h
-          exact absurd (hk.trans h) (find_none hf e he)
+          subst h
+          exact ⟨hx.1, fun e he hm => find_none hf e he hm.1⟩
       | some r =>
-        have hfin := finish_grow acc.1 x r { status := .timeout }
-        refine ⟨hg.trans hfin.1, ?_⟩
-        intro id hid e he hk
-        rcases List.mem_append.mp hid with h | h
-        · obtain ⟨hn, _, _, _, _, extra, _, _, hold⟩ := hfin.1
-          rcases hold e he with ⟨e0, he0, hk0, hb0⟩ | ⟨hb, _⟩
-          · rw [← hb0]; exact hd id h e0 he0 (hk0.trans hk)
-          · rw [hb]; exact hg.1
-        · simp only [List.mem_singleton] at h
-          rw [hfin.2 e he (hk.trans h)]; exact hg.1
-    have := ih (done ++ [x]) (onTimeout acc x) key.1 key.2
+        dsimp only
+        have hmr := find_mem hf
+        by_cases hser : r.serial = x.2
+        · simp only [hser, if_true]
+          have hfin := finish_grow acc.1 x.1 r { status := .timeout }
+          obtain ⟨gn, _, _, _, _, gs, _⟩ := hg
+          refine ⟨(show Grow st1 acc.1 from ⟨gn, by assumption, by assumption, by assumption, by assumption, gs, by assumption⟩).trans hfin.1, ?_, ?_⟩
+          · intro t ht
+            have htlt : t.2 < st1.nextSerial := by
+              rcases List.mem_append.mp ht with h | h
+              · exact (hd t h).1
+              · simp only [List.mem_singleton] at h; subst h; exact hx.1
+            refine ⟨htlt, ?_⟩
+            intro e he hm
+            obtain ⟨_, _, _, _, _, _, extra, _, _, hext, hold⟩ := hfin.1
+            rcases hold e he with ⟨e0, he0, hk0, _, hs0⟩ | ⟨_, hnew⟩
+            · rcases List.mem_append.mp ht with h | h
+              · exact (hd t h).2 e0 he0 ⟨hk0.trans hm.1, hs0.trans hm.2⟩
+              · simp only [List.mem_singleton] at h
+                subst h
+                have := hfin.2 e he hm.1
+                have h2 : e.2.serial = t.2 := hm.2
+                omega
+            · have h1 := (hext _ hnew).1
+              have h2 : e.2.serial = t.2 := hm.2
+              omega
+          · intro e he
+            rcases List.mem_append.mp he with h | h
+            · exact hev e h
+            · obtain ⟨h1, h2⟩ := finish_age acc.1 x.1 r { status := .timeout } e h
+              rw [h1, h2]
+              refine ⟨rfl, ?_⟩
+              -- the lookup found is an old one: its token says it was issued five ticks ago
+              obtain ⟨_, _, _, _, _, _, extra, _, _, hext, hold⟩ := (show Grow st1 acc.1 from ⟨gn, by assumption, by assumption, by assumption, by assumption, gs, by assumption⟩)
+              rcases hold (x.1, r) hmr with ⟨e0, he0, _, hb0, hs0⟩ | ⟨_, hnew⟩
+              · have := hx.2 e0 he0 (hs0.trans hser)
+                have hb0' : e0.2.born = r.born := hb0
+                rw [gn]; omega
+              · exfalso
+                have h1 := (hext _ hnew).1
+                have h2 : r.serial = x.2 := hser
+                have h3 := hx.1
+                have h4 : ((x.1, r) : Nat × Req).2.serial = r.serial := rfl
+                omega
+        · simp only [hser, if_false]
+          refine ⟨hg, ?_, hev⟩
+          intro t ht
+          rcases List.mem_append.mp ht with h | h
+          · exact hd t h
+          · simp only [List.mem_singleton] at h
+            subst h
+            refine ⟨hx.1, ?_⟩
+            intro e he hm
+            have : e = (t.1, r) := key_inj acc.1.reqs hk he hmr hm.1
+            rw [this] at hm
+            exact hser hm.2
+    have := ih (done ++ [x]) (onTimeout acc x) (fun t ht => hit t (List.mem_cons_of_mem _ ht))
+      key.1 hpres.1 hpres.2 key.2.1 key.2.2
     simpa [List.foldl_cons, List.append_assoc] using this
 
 /-- the tick proper: `st1` is `st` with the ring advanced by one slot, the new current slot
 swapped out (`st.r1` is being walked, `st1.r0` is empty) and the clock advanced -/
-theorem fold_timed (st st1 : St) (ht : Timed st) (e0 : st1.r0 = []) (e1 : st1.r1 = st.r2) (e2 : st1.r2 = st.r3)
+theorem fold_timed (st st1 : St) (ht : Timed st) (hk : KU st) (ha : Acc st)
+    (e0 : st1.r0 = []) (e1 : st1.r1 = st.r2) (e2 : st1.r2 = st.r3)
     (e3 : st1.r3 = st.r4) (e4 : st1.r4 = st.r0) (ev : st1.valueNumber = st.valueNumber - st.r1.length)
-    (en : st1.now = st.now + 1) (er : st1.reqs = st.reqs) :
-    Timed (st.r1.foldl onTimeout (st1, [])).1 := by
-  · skip
-    obtain ⟨hg, hd⟩ := foldl_onTimeout_grow (st1 := st1) st.r1 [] (st1, []) (Grow.refl st1) (by simp)
-    generalize (List.foldl onTimeout (st1, []) st.r1).1 = fin at hg hd
-    obtain ⟨hn, g1, g2, g3, g4, extra, hx, hv, he⟩ := hg
-    refine ⟨?_, ?_⟩
-    · intro e hmem
-      rcases he e hmem with ⟨e0', he0, hk, hb⟩ | ⟨hb, hk⟩
+    (en : st1.now = st.now + 1) (er : st1.reqs = st.reqs) (es : st1.nextSerial = st.nextSerial)
+    (ec : st1.called = st.called) (ecc : st1.cancelled = st.cancelled) (ef : st1.refused = st.refused) :
+    Timed (st.r1.reverse.foldl onTimeout (st1, [])).1 ∧
+    ∀ e ∈ (st.r1.reverse.foldl onTimeout (st1, [])).2, e.result.status = .timeout ∧ e.age = 5 := by
+  obtain ⟨t1, t2, t3, t4, t5⟩ := ht
+  have hk1 : KU st1 := by unfold KU; rw [er]; exact hk
+  have ha1 : Acc st1 := by
+    intro s hs
+    rw [es] at hs
+    rw [ec, ecc, ef, er]
+    exact ha s hs
+  have hit : ∀ t ∈ st.r1.reverse, t.2 < st1.nextSerial ∧ ∀ e ∈ st1.reqs, e.2.serial = t.2 → e.2.born + 5 = st1.now := by
+    intro t htm
+    have htm' : t ∈ slot st 4 := List.mem_reverse.mp htm
+    refine ⟨by rw [es]; exact t4 4 (by omega) t htm', ?_⟩
+    intro e he hs
+    rw [er] at he
+    have := t3 4 (by omega) t htm' e he hs
+    have := (t1 e he).1
+    rw [en]; omega
+  obtain ⟨hg, hd, hev⟩ := foldl_onTimeout_grow (st1 := st1) st.r1.reverse [] (st1, []) hit (Grow.refl st1)
+    hk1 ha1 (by simp) (by simp)
+  refine ⟨?_, hev⟩
+  generalize (List.foldl onTimeout (st1, []) st.r1.reverse).1 = fin at hg hd
+  obtain ⟨hn, g1, g2, g3, g4, hs, extra, hx, hv, hext, he⟩ := hg
+  -- an old entry of age 4 is gone: its own token was walked
+  have gone : ∀ e ∈ fin.reqs, ∀ e0' ∈ st.reqs, e0'.1 = e.1 → e0'.2.serial = e.2.serial → st.now - e0'.2.born ≠ 4 := by
+    intro e hmem e0' he0 hk' hs' h4
+    have htok := (t1 e0' he0).2.2
+    rw [h4] at htok
+    have htok' : (e0'.1, e0'.2.serial) ∈ st.r1 := htok
+    exact hd (e0'.1, e0'.2.serial) (by simpa using htok') e hmem ⟨hk'.symm, hs'.symm⟩
+  refine ⟨?_, ?_, ?_, ?_, ?_⟩
+  · intro e hmem
+    rcases he e hmem with ⟨e0', he0, hk', hb, hse⟩ | ⟨hb, hk'⟩
+    · rw [er] at he0
+      obtain ⟨u1, u2, u3⟩ := t1 e0' he0
+      have hold := gone e hmem e0' he0 hk' hse
+      rw [hn, en, ← hb, ← hk', ← hse]
+      refine ⟨by omega, by omega, ?_⟩
+      have hsucc : st.now + 1 - e0'.2.born = (st.now - e0'.2.born) + 1 := by omega
+      rw [hsucc]
+      generalize st.now - e0'.2.born = a at u2 u3 hold
+      have : a = 0 ∨ a = 1 ∨ a = 2 ∨ a = 3 := by omega
+      rcases this with rfl | rfl | rfl | rfl
+      · show _ ∈ fin.r4; rw [g4, e4]; exact u3
+      · show _ ∈ fin.r3; rw [g3, e3]; exact u3
+      · show _ ∈ fin.r2; rw [g2, e2]; exact u3
+      · show _ ∈ fin.r1; rw [g1, e1]; exact u3
+    · rw [hn, hb]
+      refine ⟨Nat.le_refl _, by omega, ?_⟩
+      rw [Nat.sub_self]
+      show _ ∈ fin.r0
+      rw [hx]; exact List.mem_append.mpr (Or.inl hk')
+  · unfold ringLen at *
+    rw [hv, hx, g1, g2, g3, g4, e0, e1, e2, e3, e4, ev, List.length_append]
+    simp only [List.length_nil]
+    omega
+  · -- token ↔ age, after the rotation
+    intro a ha5 t htok e hmem hser
+    rw [hn, en]
+    -- where does the token come from?
+    have hsrc : (a = 0 ∧ t ∈ extra) ∨ (1 ≤ a ∧ t ∈ slot st (a - 1)) := by
+      have : a = 0 ∨ a = 1 ∨ a = 2 ∨ a = 3 ∨ a = 4 := by omega
+      rcases this with rfl | rfl | rfl | rfl | rfl
+      · left
+        have h' : t ∈ fin.r0 := htok
+        rw [hx, e0, List.append_nil] at h'
+        exact ⟨rfl, h'⟩
+      · right; refine ⟨by omega, ?_⟩; show t ∈ st.r0; rw [← e4, ← g4]; exact htok
+      · right; refine ⟨by omega, ?_⟩; show t ∈ st.r4; rw [← e3, ← g3]; exact htok
+      · right; refine ⟨by omega, ?_⟩; show t ∈ st.r3; rw [← e2, ← g2]; exact htok
+      · right; refine ⟨by omega, ?_⟩; show t ∈ st.r2; rw [← e1, ← g1]; exact htok
+    rcases hsrc with ⟨ha0, hnew⟩ | ⟨ha1', hold⟩
+    · rcases he e hmem with ⟨e0', he0, _, _, hse⟩ | ⟨hb, _⟩
+      · exfalso
+        rw [er] at he0
+        have h1 := t5 e0' he0
+        have h2 := (hext _ hnew).1
+        rw [es] at h2
+        have h3 : e.2.serial = t.2 := hser
+        omega
+      · rw [hb, en, ha0]; exact Nat.sub_self _
+    · rcases he e hmem with ⟨e0', he0, _, hb, hse⟩ | ⟨_, hk'⟩
       · rw [er] at he0
-        obtain ⟨t1, t2, t3⟩ := ht.1 e0' he0
-        rw [hn, en, ← hb, ← hk]
-        have hold : st.now - e0'.2.born ≠ 4 := by
-          intro h4
-          rw [h4] at t3
-          have hb' := hd e0'.1 (by simpa using (show e0'.1 ∈ st.r1 from t3)) e hmem hk.symm
-          rw [← hb, en] at hb'
-          omega
-        refine ⟨by omega, by omega, ?_⟩
-        have hs : st.now + 1 - e0'.2.born = (st.now - e0'.2.born) + 1 := by omega
-        rw [hs]
-        generalize st.now - e0'.2.born = a at t2 t3 hold
-        have : a = 0 ∨ a = 1 ∨ a = 2 ∨ a = 3 := by omega
-        rcases this with rfl | rfl | rfl | rfl
-        · show e0'.1 ∈ fin.r4
-          rw [g4, e4]; exact t3
-        · show e0'.1 ∈ fin.r3
-          rw [g3, e3]; exact t3
-        · show e0'.1 ∈ fin.r2
-          rw [g2, e2]; exact t3
-        · show e0'.1 ∈ fin.r1
-          rw [g1, e1]; exact t3
-      · rw [hn, hb]
-        refine ⟨Nat.le_refl _, by omega, ?_⟩
-        rw [Nat.sub_self]
-        show e.1 ∈ fin.r0
-        rw [hx]; exact List.mem_append.mpr (Or.inr hk)
-    · have := ht.2
-      unfold ringLen at *
-      rw [hv, hx, g1, g2, g3, g4, e0, e1, e2, e3, e4, ev, List.length_append]
-      simp only [List.length_nil]
-      omega
+        have := t3 (a - 1) (by omega) t hold e0' he0 (hse.trans hser)
+        have := (t1 e0' he0).1
+        rw [← hb]; omega
+      · exfalso
+        have h1 := (hext _ hk').1
+        rw [es] at h1
+        have h2 := t4 (a - 1) (by omega) t hold
+        have h3 : e.2.serial = t.2 := hser
+        omega
+  · intro a ha5 t htok
+    have : a = 0 ∨ a = 1 ∨ a = 2 ∨ a = 3 ∨ a = 4 := by omega
+    have hle : st.nextSerial ≤ fin.nextSerial := by rw [← es]; exact hs
+    rcases this with rfl | rfl | rfl | rfl | rfl
+    · have h' : t ∈ fin.r0 := htok
+      rw [hx, e0, List.append_nil] at h'
+      exact (hext _ h').2
+    · have h' : t ∈ st.r0 := by rw [← e4, ← g4]; exact htok
+      exact Nat.lt_of_lt_of_le (t4 0 (by omega) t h') hle
+    · have h' : t ∈ st.r4 := by rw [← e3, ← g3]; exact htok
+      exact Nat.lt_of_lt_of_le (t4 1 (by omega) t h') hle
+    · have h' : t ∈ st.r3 := by rw [← e2, ← g2]; exact htok
+      exact Nat.lt_of_lt_of_le (t4 2 (by omega) t h') hle
+    · have h' : t ∈ st.r2 := by rw [← e1, ← g1]; exact htok
+      exact Nat.lt_of_lt_of_le (t4 3 (by omega) t h') hle
+  · intro e hmem
+    rcases he e hmem with ⟨e0', he0, _, _, hse⟩ | ⟨_, hk'⟩
+    · rw [er] at he0
+      rw [← hse]
+      exact Nat.lt_of_lt_of_le (t5 e0' he0) (by rw [← es]; exact hs)
+    · exact (hext _ hk').2
 
-theorem tick_timed {st : St} (ht : Timed st) : Timed (tick st).1 := by
+theorem tick_timed {st : St} (ht : Timed st) (hk : KU st) (ha : Acc st) :
+    Timed (tick st).1 ∧ ∀ e ∈ (tick st).2, e.result.status = .timeout ∧ e.age = 5 := by
   unfold tick
   split
-  · exact ht
-  · exact fold_timed st _ ht rfl rfl rfl rfl rfl rfl rfl rfl
+  · exact ⟨ht, by simp⟩
+  · exact fold_timed st _ ht hk ha rfl rfl rfl rfl rfl (by simp) rfl rfl rfl rfl rfl rfl
 
-theorem step_timed {st : St} (op : Op) (ht : Timed st) : Timed (step st op).1 := by
+/-- the combined invariant of a run -/
+def RI (st : St) : Prop := Timed st ∧ KU st ∧ Acc st
+
+/-- a callback is either a timeout at age exactly 5 or a non-timeout at age below 5 -/
+def AgeOK (e : Event) : Prop :=
+  (e.result.status = .timeout → e.age = 5) ∧ (e.result.status ≠ .timeout → e.age < 5)
+
+theorem step_ri {st : St} (op : Op) (h : RI st) :
+    RI (step st op).1 ∧ ∀ e ∈ (step st op).2.events, AgeOK e := by
+  obtain ⟨ht, hk, ha⟩ := h
+  have hp := step_pres st op hk ha
   cases op with
-  | servers n => exact ht
-  | defScript acts => exact ht
-  | lookup sid => exact timed_of_grow ht (lookup_grow st sid)
-  | cancel id => exact timed_of_grow ht (cancel_grow st id)
-  | running id => exact ht
-  | recv d => exact timed_of_grow ht (onRecv_grow st d)
-  | tick => exact tick_timed ht
+  | servers n => exact ⟨⟨ht, hp⟩, by simp [step]⟩
+  | defScript acts => exact ⟨⟨ht, hp⟩, by simp [step]⟩
+  | lookup sid => exact ⟨⟨timed_of_grow ht (lookup_grow st sid), hp⟩, by simp [step]⟩
+  | cancel id => exact ⟨⟨timed_of_grow ht (cancel_grow st id), hp⟩, by simp [step]⟩
+  | running id => exact ⟨⟨ht, hp⟩, by simp [step]⟩
+  | recv d =>
+    refine ⟨⟨timed_of_grow ht (onRecv_grow st d), hp⟩, ?_⟩
+    intro e he
+    have := onRecv_age d ht e he
+    exact ⟨fun h => absurd h this.1, fun _ => this.2⟩
+  | tick =>
+    have := tick_timed ht hk ha
+    refine ⟨⟨this.1, hp⟩, ?_⟩
+    intro e he
+    have := this.2 e he
+    exact ⟨fun _ => this.2, fun h => absurd this.1 h⟩
 
-theorem run_timed : ∀ (ops : List Op) (st : St), Timed st → Timed (run st ops).1 := by
+theorem run_ri : ∀ (ops : List Op) (st : St), RI st →
+    RI (run st ops).1 ∧ ∀ e ∈ allEvents (run st ops).2, AgeOK e := by
   intro ops
   induction ops with
-  | nil => intro st h; exact h
-  | cons op ops ih => intro st h; simpa [run] using ih _ (step_timed op h)
+  | nil => intro st h; exact ⟨h, by simp [run, allEvents]⟩
+  | cons op ops ih =>
+    intro st h
+    have h1 := step_ri op h
+    have h2 := ih _ h1.1
+    refine ⟨by simpa [run] using h2.1, ?_⟩
+    intro e he
+    simp only [run, allEvents, List.flatMap_cons, List.mem_append] at he
+    rcases he with he | he
+    · exact h1.2 e he
+    · exact h2.2 e he
 
-theorem init_timed : Timed init := by simp [Timed, init, ringLen]
+theorem init_slot_empty (a : Nat) : slot init a = [] := by
+  unfold slot
+  split <;> rfl
+
+theorem init_timed : Timed init := by
+  refine ⟨by simp [init], by simp [init, ringLen], ?_, ?_, by simp [init]⟩
+  · intro a _ t ht; rw [init_slot_empty] at ht; cases ht
+  · intro a _ t ht; rw [init_slot_empty] at ht; cases ht
+
+theorem init_ri : RI init :=
+  ⟨init_timed, by simp [KU, init], by intro s hs; simp [init] at hs⟩
 
 end Tbox.C15
